@@ -82,7 +82,7 @@ public:
     : _tickDuration(tickDuration)
     , _ticksPerWheel(ticksPerWheel)
     , _tickMask(ticksPerWheel - 1)
-    , _numWheels(numWheels)
+    , _numWheels(numWheels < 2 ? 2 : numWheels) // level 0 fires without a deadline test: keep an overflow level
     , _dispatcher(std::move(dispatcher))
     , _nextId{1}
     , _state{TimingWheelState::CREATED}
@@ -91,7 +91,7 @@ public:
   {
     assert(ticksPerWheel > 0 && (ticksPerWheel & (ticksPerWheel - 1)) == 0);
     assert(numWheels > 0);
-    _wheels.resize(numWheels);
+    _wheels.resize(_numWheels);
     for (auto& w : _wheels)
     {
       w.buckets.resize(ticksPerWheel);
